@@ -1828,7 +1828,7 @@ class Gen:
         # a window keyed / ordered by a column the plain extend right below has just (re)defined: the SQL generator may
         # merge the two steps only if the window does not depend on that column
         pl = st.last if (st.last and st.last.get("call") == "extend" and not st.last.get("windowed")) else None
-        if pl and not sibling and r.random() < 0.35:
+        if pl and not sibling and r.random() < (0.6 if ordered else 0.35):
             cand = [t for t in pl.get("targets", []) if t in st.cols and t not in part and t not in order
                     and not st.ci[t].null]
             if cand:
